@@ -7,8 +7,10 @@ package core
 // are exercised from real code in zz_verif_vdr_kill.go.
 
 import (
+	"context"
 	"errors"
 	"os"
+	"runtime/trace"
 
 	"github.com/martian-lang/martian/martian/syntax"
 )
@@ -97,7 +99,6 @@ func vdRemoveNoLock(self *Metadata, name MetadataFileName) error {
 //verif:stub os.Remove
 func vdRemove(name string) error { return errors.New("stub") }
 
-var _ = os.Remove
 
 type vdWorld struct {
 	top      *TopNode
@@ -112,8 +113,10 @@ var vdArgs = []string{"a1", "a2"}
 
 // vdMakeWorld: producer stage fork with arbitrary sentinel files, two
 // consumer nodes X, Y with arbitrary coarse state, and arbitrary membership
-// of the keep-alive relation (consistent by construction:
-// node in fileArgs[a] <=> a in filePostNodes[node]).
+// of the keep-alive relation (consistent by construction, the way
+// attachToFileParents / setupRetains build it: for a call,
+// node in fileArgs[a] <=> a in filePostNodes[node]; the top level / a retain
+// appears in fileArgs only).
 func vdMakeWorld(split bool, withOverrides bool) *vdWorld {
 	disableUniquification = false
 	w := &vdWorld{top: vsTop()}
@@ -144,6 +147,11 @@ func vdMakeWorld(split bool, withOverrides bool) *vdWorld {
 			f.fileArgs[arg] = map[Nodable]struct{}{}
 		}
 		f.fileArgs[arg][node] = struct{}{}
+		if node == nil {
+			// the top level / a retain is recorded in fileArgs only
+			// (attachToFileParents, setupRetains): it never counts as "done"
+			return
+		}
 		if f.filePostNodes[node] == nil {
 			f.filePostNodes[node] = map[string]syntax.Type{}
 		}
@@ -202,7 +210,6 @@ func H_C04_partialKill(splitI int, overrides int) {
 	f := w.fork
 	st := f.getState()
 	xDone, yDone := vdNodeDone(w.x), vdNodeDone(w.y)
-	anyTop := w.inNil[0] || w.inNil[1]
 	xHolds, yHolds := w.inX[0] || w.inX[1], w.inY[0] || w.inY[1]
 	_, _ = f.partialVdrKill()
 	verifCover("partial vdr ran")
@@ -214,7 +221,6 @@ func H_C04_partialKill(splitI int, overrides int) {
 	if full && st != DisabledState {
 		verifCover("full kill")
 		verifAssert(st == Complete, "C04: only a completed fork is fully killed")
-		verifAssert(!anyTop, "C04: no full kill while a top-level output or retain holds a file argument")
 		verifAssert(!xHolds || xDone, "C04: no full kill while a consumer bound to a file output is unfinished (X)")
 		verifAssert(!yHolds || yDone, "C04: no full kill while a consumer bound to a file output is unfinished (Y)")
 	}
@@ -227,8 +233,8 @@ func H_C04_partialKill(splitI int, overrides int) {
 		_, yStill := f.filePostNodes[w.y]
 		verifAssert(xStill == (xHolds && !xDone), "C04: exactly the finished consumers are released (X)")
 		verifAssert(yStill == (yHolds && !yDone), "C04: exactly the finished consumers are released (Y)")
-		_, topStill := f.filePostNodes[nil]
-		verifAssert(topStill == anyTop, "C04: a top-level / retain hold is never released")
+		_, topInPost := f.filePostNodes[nil]
+		verifAssert(!topInPost, "C04: the top level never becomes a post-node (it is never done)")
 		for i, a := range vdArgs {
 			holders, ok := f.fileArgs[a]
 			wantX, wantY, wantTop := w.inX[i] && !xDone, w.inY[i] && !yDone, w.inNil[i]
@@ -274,5 +280,245 @@ func H_C04_partialKill(splitI int, overrides int) {
 	}
 	if count["split"] == 1 {
 		verifAssert(w.fork.Split(), "C14: only splitting stages have a split temp directory to clean")
+	}
+}
+
+// ---- the keep-alive relation built by the real compiler and runtime ----
+
+//verif:stub os.Stat
+func vdStat(name string) (os.FileInfo, error) { return nil, errors.New("no such file") }
+
+//verif:stub os.ReadFile
+func vdReadFile(name string) ([]byte, error) { return nil, os.ErrNotExist }
+
+//verif:stub runtime/trace.StartRegion
+func vdStartRegion(ctx context.Context, regionType string) *trace.Region { return nil }
+
+//verif:stub (*runtime/trace.Region).End
+func vdRegionEnd(r *trace.Region) {}
+
+const vdRealSrc = `
+filetype txt;
+
+stage G(
+    in  int x,
+    out txt f,
+    out txt g,
+    out int n,
+    src comp "bin",
+)
+
+stage H(
+    in  txt f,
+    out int o,
+    src comp "bin",
+)
+
+stage I(
+    in  txt g,
+    out int o,
+    src comp "bin",
+)
+
+stage J(
+    in  int n,
+    out int o,
+    src comp "bin",
+)
+
+stage K(
+    in  int x,
+    out txt t,
+    out txt u,
+    src comp "bin",
+)
+
+stage L(
+    in  txt t,
+    in  txt u,
+    out int o,
+    src comp "bin",
+)
+
+stage M(
+    in  txt u,
+    out int o,
+    src comp "bin",
+)
+
+pipeline INNER(
+    in  txt u,
+    out int o,
+)
+{
+    call M(
+        u = self.u,
+    )
+
+    return (
+        o = M.o,
+    )
+}
+
+pipeline P(
+    in  int x,
+    out txt keep,
+    out int o,
+)
+{
+    call G(
+        x = self.x,
+    )
+
+    call H(
+        f = G.f,
+    )
+
+    call I(
+        g = G.g,
+    )
+
+    call J(
+        n = G.n,
+    )
+
+    call K(
+        x = J.o,
+    )
+
+    call L(
+        t = K.t,
+        u = K.u,
+    )
+
+    call INNER(
+        u = K.u,
+    )
+
+    return (
+        keep = G.f,
+        o    = INNER.o,
+    )
+}
+
+call P(
+    x = 1,
+)
+`
+
+type vdReal struct {
+	ps                     *Pipestance
+	g, h, i, j, k, l, m *Node
+}
+
+func vdRealGraph() *vdReal {
+	disableUniquification = false
+	return verifCached("vdRealGraph", func() any {
+		rt := vsRuntime()
+		rt.Config.VdrMode = VdrRolling
+		rt.overrides = &PipestanceOverrides{}
+		_, _, ps, err := rt.instantiatePipeline([]byte(vdRealSrc), "/m/p.mro", "ps", "/ps", nil, "none", nil, false, true, context.Background())
+		if err != nil {
+			panic("fixture does not instantiate: " + err.Error())
+		}
+		n := func(name string) *Node {
+			x := ps.node.top.allNodes["ID.ps.P."+name]
+			if x == nil {
+				panic("fixture has no node " + name)
+			}
+			return x
+		}
+		return &vdReal{ps, n("G"), n("H"), n("I"), n("J"), n("K"), n("L"), n("INNER.M")}
+	}).(*vdReal)
+}
+
+func vdHolders(f *Fork, arg string) (set map[Nodable]struct{}) { return f.fileArgs[arg] }
+
+// H_C04_realKeepAlive(which): the keep-alive relation (fileArgs /
+// filePostNodes) as the real compiler, NewPipestance, attachToFileParents and
+// setupRetains build it from MRO text, and Fork.partialVdrKill on it for
+// producer G (which = 0: a file output is also a pipeline output) or K
+// (which = 1: outputs consumed by L and, through a sub-pipeline, by M) from
+// arbitrary coarse states of producers and consumers.
+//
+//	C04: every call the text binds to a file output holds it until it is done
+//	     (also a call inside a sub-pipeline the file is passed down to); a
+//	     pipeline output is held by the top level for ever; a full kill happens
+//	     only when the producer completed and every such call is complete or
+//	     disabled.
+//	C14: nothing but top-level outputs / retains is held for ever; finished
+//	     calls are released; when all holders are done the full kill runs.
+func H_C04_realKeepAlive(which int) {
+	w := vdRealGraph()
+	vdFullKill, vdSomeDone, vdSomePartial, vdKillNil, vdPhases = 0, 0, 0, false, nil
+	vdAlready, vdPartialNil, vdForceSet, vdForceVal = false, true, false, false
+	gf, kf := w.g.forks[0], w.k.forks[0]
+	// the relation as built.  attachToFileParents records the top-level
+	// pipeline's hold under a typed nil (*Node)(nil) key; retains use the nil
+	// interface: both are "a holder that is never done"
+	var topHold Nodable = (*Node)(nil)
+	has := func(f *Fork, arg string, n Nodable) bool {
+		_, ok := f.fileArgs[arg][n]
+		return ok
+	}
+	top := func(f *Fork, arg string) bool { return has(f, arg, topHold) || has(f, arg, nil) }
+	verifAssert(has(gf, "f", w.h) && has(gf, "g", w.i) && has(kf, "t", w.l) && has(kf, "u", w.l), "C04: every call bound to a file output holds it")
+	verifAssert(has(kf, "u", w.m), "C04: a call inside a sub-pipeline holds the file passed down to it")
+	verifAssert(top(gf, "f"), "C04: a file named by a top-level pipeline output is held by the top level")
+	verifAssert(!top(gf, "g") && !top(kf, "t") && !top(kf, "u"), "C14: only top-level outputs and retained files are held for ever")
+	for _, f := range []*Fork{gf, kf} {
+		for n, args := range f.filePostNodes {
+			verifAssert(n != nil && n.getNode() != nil, "C14: every post-node is a call that finishes")
+			for a := range args {
+				verifAssert(has(f, a, n), "C04: filePostNodes and fileArgs agree")
+			}
+		}
+	}
+	for _, n := range []*Node{w.g, w.h, w.i, w.j, w.k, w.l, w.m} {
+		vdCoarse(n.forks[0], n.call.Call().Id)
+	}
+	prod := []*Node{w.g, w.k}[which]
+	f := prod.forks[0]
+	st := f.getState()
+	_, _ = f.partialVdrKill()
+	verifCover("real partial vdr ran")
+	full := vdFullKill > 0 || vdSomeDone > 0
+	if st.IsFailed() {
+		verifAssert(!full && vdSomePartial == 0, "C04: nothing is removed for a failed fork")
+	}
+	if st != DisabledState {
+		if which == 0 {
+			hDone, iDone := vdNodeDone(w.h), vdNodeDone(w.i)
+			if full {
+				verifCover("real full kill with top-level hold")
+				verifAssert(st == Complete, "C04: only a completed fork is fully killed")
+				verifAssert(hDone && iDone, "C04: no full kill while a call bound to a file output is unfinished")
+			}
+			if st == Complete {
+				verifCover("real producer complete")
+				// the per-file kill keeps what fileArgs still lists (H_C04_killSome)
+				verifAssert(top(f, "f"), "C04: the top-level hold on a pipeline output is never released")
+				verifAssert(hDone || has(f, "f", w.h), "C04: H holds G.f until it is done")
+				verifAssert(iDone || has(f, "g", w.i), "C04: I holds G.g until it is done")
+				_, gHeld := f.fileArgs["g"]
+				verifAssert(!iDone || !gHeld, "C14: G.g is released once I is done")
+			}
+		} else {
+			lDone, mDone := vdNodeDone(w.l), vdNodeDone(w.m)
+			if full {
+				verifCover("real full kill")
+				verifAssert(st == Complete, "C04: only a completed fork is fully killed")
+				verifAssert(lDone && mDone, "C04: no full kill while a call bound to a file output is unfinished")
+			}
+			if st == Complete && lDone && mDone {
+				verifAssert(full, "C14: once every holder is done the fork is fully reclaimed")
+			}
+			if st == Complete && !(lDone && mDone) {
+				verifCover("real producer held")
+				verifAssert(mDone || has(f, "u", w.m), "C04: M (in the sub-pipeline) holds K.u until it is done")
+				verifAssert(lDone || (has(f, "t", w.l) && has(f, "u", w.l)), "C04: L holds K.t and K.u until it is done")
+				verifAssert(!lDone || !has(f, "t", w.l), "C14: a finished call is released")
+			}
+		}
 	}
 }
